@@ -82,7 +82,10 @@ func (u *upload) numbers() []int {
 	return ns
 }
 
-func trimQ(s string) string { return strings.Trim(s, `"`) }
+// trimQ: the ETag without surrounding quotes and white space
+func trimQ(s string) string {
+	return strings.TrimSpace(strings.Trim(strings.TrimSpace(s), `"`))
+}
 
 // faults evaluates a CompleteMultipartUpload part list against the rules of the property statement:
 // every listed part must be the latest successful upload of that number (ETag), numbers strictly
